@@ -233,6 +233,9 @@ package table
 // decision process)
 //@   claims at-return
 //@   at-return requires ret0 == 0 ==> m1 == m2 && o1 == o2 && l1 == l2 && lp1 == lp2
+// ... and in being LLGR-stale or not: "not LLGR-stale" is the first step of the decision process, a stale route is
+// never of equal cost with a fresh best path
+//@   at-return requires ret0 == 0 ==> lhs.IsLLGRStale() == rhs.IsLLGRStale()
 
 // pairwise sortedness by the statement's order
 //@ spec sortedList(l []*Path) bool = forall i int, j int :: 0 <= i && i < j && j < len(l) ==> specPref(l[i], l[j])
